@@ -130,6 +130,11 @@ def pre(ctx):
 
 
 def run(ctx):
+    # what the handle reports (dtype, shape, size) is taken from the object the opener builds from the validated descriptor:
+    # NumPy itself then rejects what the explicit tests do not look at (negative extents, whose product can still match
+    # the file size)
+    from ._shared import opener_branch_agreement
+    opener_branch_agreement(ctx, 'D3')
     reader, rcall = find_reader(ctx)
     ctx.info['descriptor_reader'] = reader.qualname
     nval = 0
